@@ -155,7 +155,11 @@ fn parse_path(
                         ident.is_const(),
                     ))
                 }
-                x => unimplemented!("Cannot parse a path from {x:?}"),
+                _ => Err(vec![new_err(
+                    primary.as_span(),
+                    &user_data.get_source_file_name(),
+                    "this form is not supported as the target of a reassignment (only a name or `self`, followed by `.field` / `[index]`)".into(),
+                )]),
             }
         })
         .map_postfix(|lhs, op| match op.as_rule() {
